@@ -638,6 +638,10 @@ def replay_dict(e, m, plan, msg):
 
 def run(ctx):
     ctx.prove()
+    import translate_samplehelper as TSH
+    ctx.gen_step("samplehelper", TSH.translate, "C19_helper_gen",
+                 "harness/translate_samplehelper.py (ast -> Gallina printer for the helper sample(vari, size) of examples/mirp_random.py: "
+                 "if / return / raise, isinstance, np.isscalar, len, ==, and / or / not; combinators in coq/theories/PySampleHelper.v)")
     rng = ctx.rng
     quick = ctx.quick
     world = World()
